@@ -180,6 +180,66 @@ class Euler(Lemma):
         return (got is None or not np.allclose(got, X), {"coefficient": coef, "m": m, "steps": n, "native_X_T": None if got is None else got.tolist(), "euler_X_T": X.tolist()})
 
 
+class RateCoefficientFunctions(Lemma):
+    """the coefficient functions of the two rate models (real sigma(t) bodies; m = 2 rates, d = 1 or 2 driver dimensions,
+    tenors T0 < T1 < T2 and sigma symbolic), for a time in each region up to the last tenor: the result is an m x d matrix;
+    Libor: row i is sigma_i before its fixing T_i and 0 from T_i on; forward market: row i is sigma_i times
+    min(1, max(0, T_{i+1} - t) / (T_{i+1} - T_i)) -- sigma_i before T_i, linearly decreasing on [T_i, T_{i+1}], 0 afterwards."""
+    prop = "C16"
+    cases = tuple((cls, d, reg) for cls in ("LiborSDEFunction", "ForwardMarketSDEFunction") for d in (1, 2) for reg in ("t<T0", "T0<=t<T1", "T1<=t<T2"))
+
+    def __init__(self):
+        self.name = "property:rate-coefficient-functions"
+
+    def prove(self, vc, case):
+        from pyvc.sym import PyRaise
+        cls, d, reg = case
+        nm = f"{self.name}[{cls},d={d},{reg}]"
+        m = 2
+        T = vc.reals("tenor", m + 1)
+        sg = vc.reals("sigma", m * d)
+        t = vc.real("t")
+        vc.assume(And(T[0] > 0, T[0] < T[1], T[1] < T[2], t >= 0))
+        vc.assume({"t<T0": t < T[0], "T0<=t<T1": And(T[0] <= t, t < T[1]), "T1<=t<T2": And(T[1] <= t, t < T[2])}[reg])
+        S0 = np.array(sg, dtype=object).reshape(m, d)
+        f = vc.new(LD + cls, S0.copy(), np.array(T, dtype=object))
+        try:
+            res = vc.method(f, "sigma", t)
+        except PyRaise as e:
+            vc.check(nm + f"::returns-a-matrix[{e.exc_type}]", False)
+            return
+        res = np.asarray(res, dtype=object)
+        vc.check(nm + "::shape-is-m-by-d", res.shape == (m, d))
+        if res.shape != (m, d):
+            return
+        for i in range(m):
+            if cls == "LiborSDEFunction":
+                fixed = {"t<T0": False, "T0<=t<T1": i == 0, "T1<=t<T2": True}[reg]
+                want = [0.0 if fixed else S0[i, j] for j in range(d)]
+            else:
+                g = smin(1, smax(0, T[i + 1] - t) / (T[i + 1] - T[i]))
+                want = [S0[i, j] * g for j in range(d)]
+            vc.check(nm + f"::row{i}", And(*[compare(res[i, j], want[j], "==") for j in range(d)]))
+        vc.check(nm + "::the-model's-own-volatility-matrix-is-untouched", And(*[compare(f.fields["_sigma"][i, j], S0[i, j], "==") for i in range(m) for j in range(d)]))
+
+    def replay(self, model, clause, case):
+        import importlib
+        cls, d, reg = case
+        C = getattr(importlib.import_module("rpylib.model.levydrivensde.levydrivensde"), cls)
+        T = np.array([1.0, 2.0, 3.5])
+        S0 = np.array([[0.2, 0.05], [0.1, 0.3]])[:, :d]
+        t = {"t<T0": 0.5, "T0<=t<T1": 1.25, "T1<=t<T2": 2.6}[reg]
+        try:
+            res = np.asarray(C(S0.copy(), T).sigma(t), dtype=float)
+        except Exception as e:
+            return (True, {"class": cls, "t": t, "exception": f"{type(e).__name__}: {e}"})
+        if cls == "LiborSDEFunction":
+            want = S0 * (T[:-1] > t)[:, None]
+        else:
+            want = S0 * np.minimum(1, np.maximum(0, T[1:] - t) / np.diff(T))[:, None]
+        return (res.shape != want.shape or not np.allclose(res, want), {"class": cls, "t": t, "sigma(t)": res.tolist(), "expected": want.tolist()})
+
+
 class ExponentialDf(Lemma):
     """ExponentialOfLevyModel.df(t) = exp(-r t): 1 at 0, positive, non-increasing for r >= 0 (continuity: it is exp of a
     continuous function); LevyModel.df and LevyDrivenSDEModel.df are identically 1."""
@@ -198,7 +258,7 @@ class ExponentialDf(Lemma):
             vc.check(self.name + f"::{cls.split(':')[1]}:identically-one", vc.method(vc.obj(cls), "df", t1) == 1)
 
 
-UNITS = [DiscountFactor(), Euler(), ExponentialDf()]
+UNITS = [DiscountFactor(), Euler(), RateCoefficientFunctions(), ExponentialDf()]
 
 
 def LATE_UNITS():
